@@ -13,11 +13,16 @@ tensors that are the result of a split (tiled rank: partitions with different ac
 tensors whose rank ids have more than one character.  A round trip at tensor level must also restore the operand's
 rank ids (an equal tensor has equal rank ids; read from the raw rank attributes).  "Every result is itself a
 well-formed tensor" is also judged by its consequence: a result that passed the oracle is re-used as the operand of a
-split followed by flatten('absolute'), which must restore the result's content (clause result-reused).
+split followed by flatten('absolute'), which must restore the result's content (clause result-reused); and a result that is
+a new object is a tensor (fiber) of its own: elements of it are later updated in place (ref = getPayloadRef(point); ref += v),
+which must show in the result and leave the operand's content as it was (so transforming the operand again still gives the
+image of the original), and an update of the operand afterwards must not show in the result (clauses result-updated /
+operand-updated).  Trees with a wide rank (20-48 coordinates) make up to 48 points / sub-fibers collide at one merged coordinate.
 
 Violation keys: `<Entry>.<method>[:style]:<clause>:<kind>` (clause = content / roundtrip / WF:<kinds> / WF:coordinate-outside-declared-shape /
 RC / rank-ids-not-restored / raised:<Exc>@<innermost library function>; re-use of a result: `<Entry>.<method>:result-reused:
-split+flatten(absolute):mismatch` or `...:result-reused:raised:...`).  A violation whose *input* lies in one of a few recognised classes (TAG_* below: a stored but
+split+flatten(absolute):mismatch` or `...:result-reused:raised:...`; later in-place update: `<Entry>.<method>:result-updated:
+mismatch | operand-changed | raised:...` and `<Entry>.<method>:operand-updated:result-changed`).  A violation whose *input* lies in one of a few recognised classes (TAG_* below: a stored but
 content-empty sub-tree at the transform's depth, a zero-length fiber strictly inside the merged ranks, a coordinate
 outside a stale estimated shape, ...) and whose failure site is one that class can explain is keyed
 `<transform family>:<class>:<failure kind>` instead, so that one mechanism is one key.
@@ -51,12 +56,20 @@ SPEC = {
              "tensor whose split rank has extent 4-6, i.e. a tiled tensor whose partitions have different active ranges.  A "
              "third of the tensor results of swizzle / swap / flatten+unflatten / merge (60% after a split) are re-used: "
              "split (any kind) of one of the result's integer ranks followed by flatten('absolute') must restore the "
-             "result's content.  Systematic part: every (transform, depth, levels, style, entry point, "
+             "result's content.  Every result that is a new object (not the *Below forms) and passed the oracle is afterwards "
+             "updated in place at up to three of its stored points (ref = result.getPayloadRef(*point); ref += 1000): the result "
+             "must hold its content with the update and the operand its own content; then the operand is updated the same way "
+             "and the result must not change (also judged between the result of a round trip and the intermediate result).  "
+             "6% of the swizzle / swap / flatten / split+flatten cases and 15% of the merge cases take a tree one rank of which "
+             "(any position) is wide, 20-48 coordinates (30% of those merges: two adjacent wide ranks of 32-40, the remaining "
+             "extents 2), so that up to 48 points or whole sub-fibers collide at one merged coordinate.  Systematic part: every (transform, depth, levels, style, entry point, "
              "permutation) over a fixed family of 5 trees per depth, and every (swizzle permutation, swap, tuple/pair flatten, "
              "absolute merge; depth, levels, entry point) over every position and nesting of one tuple-coordinate rank "
              "(depth 2-3, 2 trees each), and every (swizzle permutation, swap depth, tuple/pair flatten (depth, levels)) over a "
              "fixed family of split results (every split depth; split kinds; absolute and relative; depth 3-4), each with a "
-             "re-use step; then random cases.  Every tensor result is also checked for containment of its stored "
+             "re-use step, and every (swizzle permutation, swap depth, flatten (depth, levels, style), merge (depth, levels, "
+             "style; sum / max / count / min where legal)) over a fixed family of 12 trees with one or two wide ranks (32-40 "
+             "coordinates, every position, depth 2-4); then random cases.  Every tensor result is also checked for containment of its stored "
              "coordinates in the shape it declares authoritative.  Non-trivial = the operand holds at "
              "least 2 points, the transform returned a result that passed the oracle, and its image differs from the original "
              "content (merges: at least one real collision of points; split round trips and updatePayloads: at least 2 "
@@ -72,12 +85,16 @@ SPEC = {
                              "tuple_rank:swizzle": 100, "tuple_rank:swap": 60, "tuple_rank:flatten": 200,
                              "tuple_rank:merge": 100, "multichar_id_inputs": 1000, "rank_ids_checked": 1200,
                              "pre_split_inputs": 500, "pre_split_several_partitions": 350, "pre_split:swizzle": 200,
-                             "pre_split:swap": 60, "pre_split:flatten": 200, "results_reused": 400},
+                             "pre_split:swap": 60, "pre_split:flatten": 200, "results_reused": 400,
+                             "results_updated": 4000, "wide_rank_inputs": 300, "wide_rank:swizzle": 40, "wide_rank:flatten": 60,
+                             "wide_rank:merge": 150, "merge_fanin:10-26": 25, "merge_fanin:27+": 40,
+                             "fiber_merge_fanin:27+": 8},
                    "thorough": {"evaluations": 30000, "oracle_evals": 150000, "results_judged": 50000,
                                 "roundtrips_checked": 15000, "collisions_merged": 5000, "containment_checked": 15000,
                                 "tuple_rank_inputs": 5000, "tuple_rank:swap": 500, "multichar_id_inputs": 10000,
                                 "rank_ids_checked": 12000, "pre_split_inputs": 4000, "pre_split_several_partitions": 3000,
-                                "results_reused": 4000}},
+                                "results_reused": 4000, "results_updated": 40000, "wide_rank_inputs": 3000,
+                                "merge_fanin:27+": 300, "fiber_merge_fanin:27+": 50}},
     "assumptions": [
         "ordered/unique fibers with integer coordinates in the operand; coordinates (also those written through getPayloadRef) lie "
         "inside the shape when a shape is declared",
@@ -92,7 +109,8 @@ SPEC = {
         "generated (sum with default 0, max over positive values with default 0).  Multi-level merges apply merge_fn "
         "hierarchically, so only associative and commutative functions are used with levels > 1",
         "content of every result is read with the operand's leaf default (a result's own default / rank ids / shape / format are C14's)",
-        "a result may keep or drop explicit defaults and empty sub-fibers (content is compared); operand immutability is C10's",
+        "a result may keep or drop explicit defaults and empty sub-fibers (content is compared); that the transform itself leaves the "
+        "operand structurally as it was is C10's",
         "flatten-after-split is judged only when the split itself returned a well-formed tree holding every point and the operand "
         "has no stored content-empty sub-tree at the split depth (splitting is C08's)",
         "updateCoords is given a rank whose shape is known, or a new_shape (it asserts the shape's type against the coordinates; "
@@ -133,6 +151,15 @@ SPEC = {
         "content-empty sub-tree at the depth of the new split (C08's), and operands of which a stored coordinate lies outside its "
         "fiber's active range (the partitions of a relativeCoords split keep an absolute active range: a split of such a "
         "tensor drops points already before any transform)",
+        "later in-place update (clauses result-updated / operand-updated): judged on results that passed the content oracle, are a "
+        "new object (every tensor-level transform; Fiber.swapRanks / flattenRanks / mergeRanks / unflattenRanks - all documented "
+        "as returning a new fiber / tensor) and hold at least one point, against operands that hold at least one point; only "
+        "stored non-default elements are updated (no insertion), by + 1000, through the public idiom ref = x.getPayloadRef(*point); "
+        "ref += 1000, also with tuple coordinates; only content is compared (read from the raw lists with the operand's default).  "
+        "Structural identity of the operand and aliasing of attribute / rank objects are C10's",
+        "wide ranks: 20-48 coordinates in one rank (32-40 in two adjacent ranks), integer coordinates, no tuple-coordinate rank, "
+        "not the operand of a preceding split; driven through swizzle, swap, flatten (+ unflatten), merge and split + flatten; "
+        "merge functions as above (prod over up to 48 values is exact integer arithmetic)",
         "not generated: U-format ranks, halo splits",
     ],
 }
@@ -146,6 +173,7 @@ PFUNCS = ["scale3", "coordmix", "scale3box"]
 ID_SETS = {"numbered": ["K0", "M1", "N2", "P3", "Q4", "R5"], "words": ["batch", "chan", "row", "col", "tap", "lane"],
            "dotted": ["K.1", "K.0", "M.1", "M.0", "N", "P.0"]}
 PRE_KINDS = ("swizzle", "swap", "flatten")      # transforms also driven on operands that are the result of a split
+UPDATE_BY = 1000       # amount accumulated into an element by the in-place update of a result / an operand (clause result-updated)
 SPLIT_METH = {"uniform": "splitUniform", "equal": "splitEqual", "nonuniform": "splitNonUniform", "unequal": "splitUnEqual"}
 
 
@@ -217,6 +245,7 @@ def _tree(rng, D, default=0, dirty=0.0, p=0.7, positive=False, ext=None):
 
 TUPLE_KINDS = ("swizzle", "swap", "flatten", "merge")      # transforms also driven on operands with a tuple-coordinate rank
 POST_KINDS = ("swizzle", "swap", "flatten", "merge")       # tensor results that are re-used as the operand of a split + flatten
+WIDE_KINDS = ("swizzle", "swap", "flatten", "merge", "splitflat")      # transforms also driven on trees with a wide rank
 
 
 def _jlist(c):
@@ -298,6 +327,56 @@ def _family(D):
     for i, name in ((1, "numbered"), (2, "dotted"), (3, "words")):
         fam[i]["ids"] = ID_SETS[name][:D]
     return fam
+
+
+def _wide_ext(rng, D, two=False):
+    """Extents of a depth-D tree one rank of which (any position) is wide: 20-48 coordinates, so that a merge of that rank
+    makes up to 48 points / sub-fibers collide at one coordinate.  `two`: the rank below it is wide as well (a 'relative'
+    merge needs both for a wide collision: m + n = c has min(M, N) solutions); the remaining extents are 2-3."""
+    if two:
+        D = min(D, 3)
+        w = rng.randrange(D - 1)
+        ext = [2] * D
+        ext[w], ext[w + 1] = rng.randint(32, 40), rng.randint(32, 40)
+        return ext
+    ext = [rng.randint(2, 3) if D < 4 else 2 for _ in range(D)]
+    ext[rng.randrange(D)] = rng.randint(20, 48)
+    return ext
+
+
+def _wfamily():
+    """Fixed family of trees with a wide rank (every position of the wide rank at depth 2-3, the top rank at depth 4, two
+    adjacent wide ranks at depth 2-3); positive values and default 0, so that max is a legal merge function above the leaf."""
+    r = random.Random(9300)
+    fam = []
+    for k, ext in enumerate(([34, 4], [4, 34], [36, 36], [34, 3, 3], [3, 34, 3], [3, 3, 34], [36, 36, 2], [2, 36, 36],
+                             [40, 2, 3], [34, 2, 2, 2], [2, 34, 2, 2], [32, 3, 2, 2])):
+        dirty = (0.0, 0.2)[k % 2]
+        spec, _ = _tree(r, len(ext), 0, dirty, 0.95, positive=True, ext=ext)
+        fam.append({"spec": spec, "depth": len(ext), "default": 0, "shape": ext if k % 3 else None, "wide": True})
+        if k % 4 == 2:
+            fam[-1]["ids"] = ID_SETS["numbered"][:len(ext)]
+    return fam
+
+
+def _systematic_wide():
+    for ti, base in enumerate(_wfamily()):
+        D = base["depth"]
+        perms = list(itertools.permutations(range(D)))
+        for perm in perms if D < 4 else perms[1::5]:
+            yield dict(base, kind="swizzle", perm=list(perm))
+        for d in range(D - 1):
+            yield dict(base, kind="swap", d=d, mode=("tensor", "fiber" if d == 0 else "below")[(ti + d) % 2])
+        for d, l in _dl_choices(D):
+            for si, style in enumerate(STYLES_FLAT):
+                if style == "linear" and base["shape"] is None:
+                    continue
+                yield dict(base, kind="flatten", d=d, l=l, style=style, mode=("tensor", "fiber")[(ti + d + l + si) % 2])
+            for style in STYLES_MERGE:
+                for fi, fn in enumerate((None, "max", "count", "min")):
+                    c = dict(base, kind="merge", d=d, l=l, style=style, fn=fn, mode=("tensor", "fiber")[(ti + d + l + fi) % 2])
+                    if _merge_legal(c):
+                        yield c
 
 
 def _pre_tree(rng, D, ds, default=0, dirty=0.0, p=0.7):
@@ -419,7 +498,7 @@ def _merge_legal(c):
 
 def generate(rng, tier, shard, nshards, mon):
     idx = 0
-    for case in itertools.chain(_systematic(), _systematic_tuple(), _systematic_pre()):
+    for case in itertools.chain(_systematic(), _systematic_tuple(), _systematic_pre(), _systematic_wide()):
         if idx % nshards == shard:
             case["sys"] = True
             if "post" not in case and idx % 3 == 0 and case["kind"] in POST_KINDS and case.get("mode", "tensor") == "tensor":
@@ -431,6 +510,8 @@ def generate(rng, tier, shard, nshards, mon):
                    "nesting of one tuple-coordinate rank, depth 2-3"] = True
     mon.exhaustive["all (swizzle permutation, swap depth, tuple/pair flatten (depth, levels)) on the result of a split "
                    "(every split depth; kinds; absolute / relative coordinates), depth 3-4"] = True
+    mon.exhaustive["all (swizzle permutation (depth 2-3), swap depth, flatten (depth, levels, style), merge (depth, levels, style; "
+                   "sum, max, count, min where legal)) over a fixed family of trees with one or two wide ranks (32-40 coordinates)"] = True
     nrand = (8000 if tier == "quick" else 400000) // nshards
     for _ in range(nrand):
         yield _random_case(rng)
@@ -445,6 +526,7 @@ def _random_case(rng):
                        "updcoords", "updpay"])
     positive = kind == "merge" and rng.random() < 0.4
     tinfo = pre = None
+    wide = False
     if kind in PRE_KINDS and rng.random() < 0.2:
         D = rng.choice([3, 3, 4])
         sk = rng.choice(SPLITS)
@@ -456,6 +538,12 @@ def _random_case(rng):
     elif kind in TUPLE_KINDS and rng.random() < 0.25:
         tl = rng.choice([1, 1, 2]) if D < 4 else 1
         spec, ext, tinfo = _tuple_tree(rng, D, rng.randrange(D), tl, rng.choice(["tuple", "pair"]), default, dirty, p, positive)
+    elif kind in WIDE_KINDS and rng.random() < (0.15 if kind == "merge" else 0.06):
+        # a wide rank: the number of points / sub-fibers that meet at one merged coordinate is not bounded by a small extent
+        wide = True
+        p = rng.choice([0.7, 0.95, 0.95])
+        spec, ext = _tree(rng, D, default, dirty, p, positive, ext=_wide_ext(rng, D, two=(kind == "merge" and rng.random() < 0.3)))
+        D = len(ext)
     else:
         spec, ext = _tree(rng, D, default, dirty, p, positive)
     if rng.random() < 0.03:
@@ -468,6 +556,8 @@ def _random_case(rng):
     case = dict(tinfo or {}, kind=kind, spec=spec, depth=D, default=default, shape=shape)
     if pre:
         case["pre"] = pre
+    if wide:
+        case["wide"] = True
     if rng.random() < 0.5:
         name = rng.choice(sorted(ID_SETS))
         off = rng.randrange(2)
@@ -932,6 +1022,65 @@ def _reuse(ctx, op, desc, r, exp, skip=None):
     _judge(ctx, op, desc, f, exp, "split+flatten(absolute)")
 
 
+def _bump(ctx, op, desc, x, cont):
+    """Accumulate into up to three stored elements of `x` in place (the usual idiom: ref = x.getPayloadRef(*point);
+    ref += v).  Returns the content `x` has to hold afterwards, or None when the update raised."""
+    pts = list(cont)
+    try:
+        pts.sort()
+    except TypeError:
+        pass
+    new = dict(cont)
+    for pt in {pts[0], pts[len(pts) // 2], pts[-1]}:
+        def upd(pt=pt):
+            ref = x.getPayloadRef(*pt)
+            ref += UPDATE_BY
+        ok, _ = _call(ctx, op, desc, upd)
+        if not ok:
+            return None
+        new[pt] += UPDATE_BY
+    return new
+
+
+def _updated(ctx, op, desc, r, exp, x, c0):
+    """A result is a tensor (fiber) of its own: a later in-place update of elements of the result shows in the result and
+    nowhere else - the operand `x` still holds its content `c0`, so transforming it again still gives the image of the
+    original - and a later update of the operand does not show in the result.  Judged on results that passed the content
+    oracle and are a new object.  Returns the contents (result, operand) after the updates."""
+    mon, default = ctx.mon, ctx.default
+    if r is x or not exp or not c0 or not isinstance(r, (Tensor, Fiber)):
+        mon.count("update_not_judged:empty-or-in-place")
+        return exp, c0
+    mon.count("results_updated")
+    uop = op + ":result-updated"
+    udesc = f"in-place update (ref = getPayloadRef(point); ref += {UPDATE_BY}) of elements of the result of {desc}" + ctx.note
+    exp2 = _bump(ctx, uop, udesc, r, exp)
+    if exp2 is None:
+        return exp, c0
+
+    def diff(got, want):
+        bad = [p for p in set(got) | set(want) if got.get(p) != want.get(p)]
+        return f"{len(bad)} point(s) differ (point, holds, should hold) {[(p, got.get(p), want.get(p)) for p in bad[:4]]}"
+    got = content(_root(r), default)
+    mon.check(got == exp2, uop + ":mismatch", f"{udesc}: the result does not hold its content with the update: {diff(got, exp2)}")
+    got0 = content(_root(x), default)
+    mon.check(got0 == c0, uop + ":operand-changed",
+              f"{udesc}: the update shows in the operand, which no longer holds its content (transforming it again is not the "
+              f"image of the original): {diff(got0, c0)}")
+    if got != exp2 or got0 != c0:
+        return got, got0
+    uop = op + ":operand-updated"
+    udesc = f"in-place update (ref = getPayloadRef(point); ref += {UPDATE_BY}) of elements of the operand after {desc}" + ctx.note
+    c02 = _bump(ctx, uop, udesc, x, c0)
+    if c02 is None:
+        return exp2, c0
+    got = content(_root(r), default)
+    mon.check(got == exp2, uop + ":result-changed",
+              f"{udesc}: the update of the operand shows in the result, which no longer is the image of the content the "
+              f"operand had: {diff(got, exp2)}")
+    return got, content(_root(x), default)
+
+
 def _fibers_at(spec, level):
     """Specs of all fibers at `level` (root = 0)."""
     cur = [spec]
@@ -987,6 +1136,9 @@ def run_case(case, mon):
     mon.count(f"kind:{kind}")
     if case["default"] != 0:
         mon.count("nonzero_default_inputs")
+    if case.get("wide"):
+        mon.count("wide_rank_inputs")
+        mon.count(f"wide_rank:{kind}")
     ctx = _Ctx(mon, case)
     try:
         nt, npts = {"swizzle": _run_swizzle, "swap": _run_swap, "flatten": _run_flatten, "merge": _run_merge,
@@ -1014,11 +1166,16 @@ def _run_swizzle(ctx):
     mon.state(("swizzle", len(perm), perm, sorted(map(str, exp))[:6]))
     _next_operand(ctx, r)
     ok, b = _call(ctx, op + ":inverse", desc + " then back", r.swizzleRanks, list(ids), tags=_stale_tag(r))
+    goodb = False
     if ok:
         mon.count("roundtrips_checked")
-        _judge(ctx, op + ":inverse", desc + " then back", b, c0, "roundtrip", ids=ids)
+        goodb = _judge(ctx, op + ":inverse", desc + " then back", b, c0, "roundtrip", ids=ids)
     if good:
         _reuse(ctx, op, desc, r, exp)
+        now = exp
+        if goodb:
+            now = _updated(ctx, op + ":inverse", desc + " then back", b, c0, r, exp)[1]
+        _updated(ctx, op, desc, r, now, t, c0)
     return good and set(exp) != set(c0), len(c0)
 
 
@@ -1074,9 +1231,15 @@ def _run_swap(ctx):
         ok, _ = _call(ctx, op + ":twice", desc + " twice", f.swapRanksBelow, depth=d - 1)
         b = f
     mon.state(("swap", D, d, mode, sorted(map(str, exp))[:6]))
+    goodb = False
     if ok:
         mon.count("roundtrips_checked")
-        _judge(ctx, op + ":twice", desc + " twice", b, c0, "roundtrip", ids=ctx.ids if mode == "tensor" else None)
+        goodb = _judge(ctx, op + ":twice", desc + " twice", b, c0, "roundtrip", ids=ctx.ids if mode == "tensor" else None)
+    if good and mode != "below":
+        now = exp
+        if goodb:
+            now = _updated(ctx, op + ":twice", desc + " twice", b, c0, r, exp)[1]
+        _updated(ctx, op, desc, r, now, t if mode == "tensor" else f, c0)
     return good and set(exp) != set(c0), len(c0)
 
 
@@ -1108,6 +1271,7 @@ def _run_flatten(ctx):
     good = _judge(ctx, op, desc, r, exp, style=style, tags=tags, ctags=ctags)
     mon.state(("flatten", D, d, l, style, mode, sorted(map(str, exp))[:6]))
     noreuse = None
+    now = exp       # content of the flattened result (changes when the round trip's result and then `r` are updated in place)
     if d > 0 and any(not gen.content_of_spec(f, ctx.default) for f in _fibers_at(stored, d)):
         # guard (decided: observed, not claimed - DESIGN 12.3, as for swaps): unflatten leaves a content-empty fiber at its depth as it
         # is, and the rank takes the flattened (tuple) shape / active range from it
@@ -1144,10 +1308,21 @@ def _run_flatten(ctx):
                 mon.count("rank_ids_not_judged:upper-combined-rank-has-list-id")
                 rids = None
             # a flattened fiber that took its default from an empty last child (class TAG_INNER) is then mis-seen as empty
-            if _judge(ctx, uop, udesc, u, c0, "roundtrip", style=style, ctags=ctags, cls_op=op, ids=rids) and mode == "tensor":
-                _reuse(ctx, uop, udesc, u, c0, skip=noreuse)
+            if _judge(ctx, uop, udesc, u, c0, "roundtrip", style=style, ctags=ctags, cls_op=op, ids=rids):
+                if mode == "tensor":
+                    _reuse(ctx, uop, udesc, u, c0, skip=noreuse)
+                if u is r:
+                    now = c0        # unflattened in place (*Below form): the flattened fiber now holds the original content
+                else:
+                    now = _updated(ctx, uop, udesc, u, c0, r, exp)[1]
+            elif u is r:
+                now = None
+        elif u is r:
+            now = None              # the in-place unflattening raised half way
     elif good and mode == "tensor":
         _reuse(ctx, op, desc, r, exp)
+    if good and mode != "below" and now is not None:
+        _updated(ctx, op, desc, r, now, x, c0)
     return good and bool(c0), len(c0)
 
 
@@ -1193,13 +1368,16 @@ def _run_merge(ctx):
     fname = fn or "default(sum)"
     tags = _skip_tag(stored, d, default)
     rtags = tags + _inner_tag(stored, d, l)
-    if D - 1 - (d + l) >= 2:
-        fan = {}
-        for pts in groups.values():
-            for pt, _ in pts:
-                fan.setdefault(pt[:d] + (_combine(pt[d:d + l + 1], style, None),), set()).add(pt[d:d + l + 1])
-        if any(len(srcs) >= 3 for srcs in fan.values()):
-            rtags = rtags + (TAG_DEEP3,)
+    # fan-in: how many elements of the merged ranks (points, or whole sub-fibers when the merge ends above the leaf rank)
+    # meet at one merged coordinate
+    fan = {}
+    for pts in groups.values():
+        for pt, _ in pts:
+            fan.setdefault(pt[:d] + (_combine(pt[d:d + l + 1], style, None),), set()).add(pt[d:d + l + 1])
+    fanin = max((len(srcs) for srcs in fan.values()), default=0)
+    fclass = "1" if fanin <= 1 else "2-3" if fanin <= 3 else "4-9" if fanin <= 9 else "10-26" if fanin <= 26 else "27+"
+    if D - 1 - (d + l) >= 2 and fanin >= 3:
+        rtags = rtags + (TAG_DEEP3,)
     if mode == "tensor":
         op = "Tensor.mergeRanks"
         desc = f"Tensor.mergeRanks(depth={d}, levels={l}, coord_style={style!r}, merge_fn={fname})"
@@ -1213,9 +1391,15 @@ def _run_merge(ctx):
     ctags = _inner_tag(stored, d, l) if default != 0 else ()
     good = _judge(ctx, op, desc, r, exp, style=style, tags=tags, alt=alt, ctags=ctags)
     mon.count("collisions_merged", ncoll)
+    if good:
+        mon.count(f"merge_fanin:{fclass}")
+        if d + l < D - 1:
+            mon.count(f"fiber_merge_fanin:{fclass}")
     mon.state(("merge", D, d, l, style, fname, mode, sorted(map(str, exp.items()))[:6]))
     if good and mode == "tensor":
         _reuse(ctx, op, desc, r, exp)
+    if good:
+        _updated(ctx, op, desc, r, exp, x, c0)
     return good and ncoll > 0, len(c0)
 
 
